@@ -230,7 +230,7 @@ Section Sound.
   Proof. pose proof (sw_length _ _ Hocc) as H. rewrite skipn_length in H. pose proof D_len. lia. Qed.
 
   Lemma fs_rest_sound first pre pv size p s1 d p' s' :
-    V = pre ++ pv ++ L s1 -> (length pre <= i0)%nat -> (length pre + length pv < i0 + length D)%nat ->
+    V = pre ++ pv ++ L s1 -> (length pre <= i0)%nat -> (first = false -> (length pre + length pv < i0 + length D)%nat) ->
     (first = true -> pre = []) ->
     s_ok s1 -> (p_content_eof p <> 0 -> s_eof s1 = true) -> p_blen p <= size -> p_boundary p = bnd ->
     fs_rest first pv size p s1 = Ok (d, p', s') ->
@@ -262,7 +262,7 @@ Section Sound.
     set (start := if first then 0 else window_search_start (lenN pv) (lenN D)).
     assert (HV' : V = pre ++ (pv ++ chunk) ++ L s3). { rewrite HV, C1, <- app_assoc. reflexivity. }
     assert (Hstart : (length pre + N.to_nat start <= i0)%nat).
-    { unfold start. destruct first; [lia|]. unfold window_search_start, lenN. lia. }
+    { unfold start. destruct first; [lia|]. specialize (Hpv eq_refl). unfold window_search_start, lenN. lia. }
     destruct (find_from D (pv ++ chunk) start) as [idx|] eqn:FF.
     - (* delimiter found *)
       apply find_from_some in FF as (k & -> & Sk & Ok & Nk).
@@ -291,7 +291,7 @@ Section Sound.
         rewrite firstn_length. repeat split; try lia; [apply unread_ok; exact K3|rewrite unread_eof; exact J3].
     - (* not found *)
       pose proof (find_from_none _ _ _ FF) as Nk.
-      pose proof (window_not_found D V i0 Hocc pre (pv ++ chunk) (L s3) HV' (N.to_nat start) Hstart Nk) as NF.
+      pose proof (window_not_found D V i0 Hocc Hfirst pre (pv ++ chunk) (L s3) HV' (N.to_nat start) Hpre Hstart Nk) as NF.
       rewrite app_length in NF.
       intro H; inversion H; subst d p' s'; clear H. split; [repeat split|]. left.
       cbn [p_at_eof p_set_window orb p_prev p_content_eof]. split; [reflexivity|]. split; [destruct first; reflexivity|].
@@ -302,4 +302,183 @@ Section Sound.
         - pose proof V_long as VL. rewrite HV', C4, !app_length in VL. cbn [length] in VL. lia. }
       repeat split; try lia; assumption.
   Qed.
+
+  (* ---- the invariant of the reading loop ---- *)
+  Definition St (acc : bytes) (p : part) (s : stream) : Prop :=
+    p_b64 p = false /\ p_length p = None /\ p_carry p = [] /\ p_boundary p = bnd /\ s_ok s /\
+    (p_content_eof p <> 0 -> s_eof s = true) /\
+    match p_prev p with
+    | None => acc = [] /\ V = delim_prefix ++ L s
+    | Some pv => V = (delim_prefix ++ acc) ++ pv ++ L s /\ (2 + length acc <= i0)%nat /\
+                 (2 + length acc + length pv < i0 + length D)%nat
+    end.
+
+  Lemma firstn_V : firstn i0 V = delim_prefix ++ body.
+  Proof.
+    unfold V, i0. change (delim_prefix ++ body ++ D ++ rest) with (13 :: 10 :: body ++ D ++ rest).
+    cbn [firstn Nat.add]. rewrite firstn_app, firstn_all, Nat.sub_diag. cbn [firstn]. rewrite app_nil_r. reflexivity.
+  Qed.
+
+  Lemma from_stream_sound size acc p s d p' s' :
+    St acc p s -> read_chunk_from_stream size p s = Ok (d, p', s') ->
+    same_static p p' /\
+    ((p_at_eof p' = p_at_eof p /\ St (acc ++ d) p' s') \/ (p_at_eof p' = true /\ acc ++ d = body)).
+  Proof.
+    intros (B64 & PL & PC & PB & K & J & PV) H. rewrite rcfs_eq in H.
+    destruct (size <? p_blen p) eqn:SZ; [discriminate|]. assert (Hsz : p_blen p <= size) by lia.
+    destruct (p_prev p) as [pv|] eqn:PP.
+    - destruct PV as (HV & A1 & A2).
+      assert (LP : length (delim_prefix ++ acc) = (2 + length acc)%nat) by (rewrite app_length; reflexivity).
+      destruct (fs_rest_sound false (delim_prefix ++ acc) pv size p s d p' s' HV ltac:(lia) ltac:(intros _; lia)
+                  ltac:(discriminate) K J Hsz PB H) as (SS & [(E1 & E2 & pv' & P1 & P2 & P3 & P4 & P5 & P6)|(E1 & E2 & E3)]).
+      + split; [exact SS|]. left. split; [exact E1|].
+        destruct SS as (S1 & S2 & S3 & S4 & S5 & _).
+        unfold St. rewrite S3, S2, S5, S1, P1.
+        split; [exact B64|split; [exact PL|split; [exact PC|split; [exact PB|split; [exact P5|split; [exact P6|]]]]]].
+        subst d. change (dropb 0 pv) with pv.
+        split; [|split].
+        * rewrite P2, <- !app_assoc. reflexivity.
+        * rewrite app_length. lia.
+        * rewrite app_length. lia.
+      + split; [exact SS|]. right. split; [exact E1|].
+        pose proof firstn_V as FV. rewrite HV in FV. rewrite LP in *.
+        rewrite (firstn_app_ge (delim_prefix ++ acc) _ i0) in FV by lia. rewrite LP in FV.
+        rewrite firstn_app in FV. replace (i0 - (2 + length acc) - length pv)%nat with 0%nat in FV by lia.
+        cbn [firstn] in FV. rewrite app_nil_r, <- app_assoc in FV. apply app_inv_head in FV.
+        rewrite E3. cbn [dropb skipn N.to_nat]. exact FV.
+    - destruct PV as (-> & HV). destruct (s_read size s) as [r1 s1] eqn:R.
+      pose proof (read_L _ _ _ _ R) as RL. pose proof (read_ok _ _ _ _ K R) as K1.
+      assert (J1 : p_content_eof p <> 0 -> s_eof s1 = true) by (intro C; apply (read_eof_kept _ _ _ _ (J C) R)).
+      assert (HV1 : V = [] ++ (delim_prefix ++ r1) ++ L s1). { cbn [app]. rewrite HV, RL, <- app_assoc. reflexivity. }
+      destruct (fs_rest_sound true [] (delim_prefix ++ r1) size p s1 d p' s' HV1 ltac:(cbn; lia) ltac:(discriminate)
+                  ltac:(reflexivity) K1 J1 Hsz PB H) as (SS & [(E1 & E2 & pv' & P1 & P2 & P3 & P4 & P5 & P6)|(E1 & E2 & E3)]).
+      + split; [exact SS|]. left. split; [exact E1|].
+        destruct SS as (S1 & S2 & S3 & S4 & S5 & _).
+        assert (DR : d = r1) by (rewrite E2; reflexivity). clear E2. subst d.
+        cbn [app length] in *. unfold St. rewrite S3, S2, S5, S1, P1.
+        split; [exact B64|split; [exact PL|split; [exact PC|split; [exact PB|split; [exact P5|split; [exact P6|]]]]]].
+        split; [exact P2|split].
+        * rewrite app_length in P3. cbn [length delim_prefix] in P3. lia.
+        * rewrite app_length in P4. cbn [length delim_prefix] in P4. lia.
+      + split; [exact SS|]. right. split; [exact E1|]. cbn [app length] in *. rewrite Nat.sub_0_r in *.
+        pose proof firstn_V as FV. rewrite HV1 in FV. cbn [app] in FV.
+        change (13 :: 10 :: r1 ++ L s1) with ((delim_prefix ++ r1) ++ L s1) in FV.
+        rewrite firstn_app in FV. replace (i0 - length (delim_prefix ++ r1))%nat with 0%nat in FV by lia.
+        cbn [firstn] in FV. rewrite app_nil_r in FV. rewrite E3, FV. reflexivity.
+  Qed.
+
+  Lemma St_set_carry acc p s : St acc p s -> St acc (p_set_carry [] p) s.
+  Proof. intros (B64 & PL & PC & PB & K & J & PV). repeat split; assumption. Qed.
+
+  Lemma St_add_read acc n p s : St acc p s -> St acc (p_add_read n p) s.
+  Proof. intros (B64 & PL & PC & PB & K & J & PV). repeat split; assumption. Qed.
+
+  Theorem read_chunk_sound size acc p s d p' s' :
+    St acc p s -> p_at_eof p = false -> read_chunk size p s = Ok (d, p', s') ->
+    (p_at_eof p' = false /\ St (acc ++ d) p' s') \/ (p_at_eof p' = true /\ acc ++ d = body).
+  Proof.
+    intros HS E H. pose proof HS as (B64 & PL & PC & PB & K & J & PV).
+    rewrite read_chunk_eq, E, PL, B64, PC in H.
+    destruct (read_chunk_from_stream _ _ s) as [[[fresh p1] s1]|e] eqn:F; [|discriminate].
+    apply (from_stream_sound _ acc _ _ _ _ _ (St_set_carry _ _ _ HS)) in F.
+    destruct F as ((S1 & S2 & S3 & S4 & S5 & _) & F).
+    unfold rc_tail in H. cbn [app] in H.
+    assert (LR : length_reached (p_add_read (lenN fresh) p1) = false).
+    { unfold length_reached. cbn [p_length p_add_read]. rewrite S2. cbn [p_length p_set_carry]. rewrite PL. reflexivity. }
+    rewrite LR in H. cbn [p_at_eof p_add_read] in H.
+    destruct F as [(E1 & F)|(E1 & F)].
+    - cbn [p_at_eof p_set_carry] in E1. rewrite E1, E in H. inversion H; subst. left. split; [cbn [p_at_eof p_add_read]; rewrite E1; exact E|].
+      apply St_add_read. exact F.
+    - rewrite E1 in H. destruct (s_readline 0 s1) as [[l|] s2]; [|discriminate].
+      destruct (list_eqb l CRLF); [|discriminate]. inversion H; subst. right. split; [exact E1|exact F].
+  Qed.
+
+  Definition Good (acc : bytes) (p : part) (s : stream) : Prop :=
+    (p_at_eof p = false /\ St acc p s) \/ (p_at_eof p = true /\ acc = body).
+
+  Theorem read_loop_sound fuel : forall acc p s data p' s',
+    Good acc p s -> read_loop fuel acc p s = Ok (data, p', s') -> data = body.
+  Proof.
+    induction fuel as [|f IH]; intros acc p s data p' s' G H; rewrite read_loop_eq in H.
+    - destruct G as [[E _]|[E A]]; rewrite E in H; [discriminate|]. inversion H; subst. reflexivity.
+    - destruct G as [[E HS]|[E A]]; rewrite E in H.
+      2:{ inversion H; subst. reflexivity. }
+      destruct (read_chunk chunk_size p s) as [[[d p1] s1]|e] eqn:R; [|discriminate]. cbv zeta in H.
+      destruct (over_client_max _ _); [discriminate|].
+      apply (IH _ _ _ _ _ _) in H; [exact H|].
+      destruct (read_chunk_sound _ _ _ _ _ _ _ HS E R) as [[E1 S1]|[E1 A1]]; [left|right]; split; assumption.
+  Qed.
+
+  Theorem chunks_loop_sound fuel : forall sizes count bounded acc p s data p' s',
+    Good acc p s -> chunks_loop fuel sizes count bounded acc p s = Ok (data, p', s') ->
+    p_at_eof p' = true -> data = body.
+  Proof.
+    induction fuel as [|f IH]; intros sizes count bounded acc p s data p' s' G H E'; rewrite chunks_loop_eq in H.
+    - destruct G as [[E _]|[E A]]; rewrite E in H; cbn [orb] in H.
+      + destruct (bounded && (count =? 0)); [|discriminate]. inversion H; subst. congruence.
+      + inversion H; subst. reflexivity.
+    - destruct G as [[E HS]|[E A]]; rewrite E in H; cbn [orb] in H.
+      2:{ inversion H; subst. reflexivity. }
+      destruct (bounded && (count =? 0)); [inversion H; subst; congruence|].
+      destruct (match sizes with [] => (chunk_size, []) | z :: r => (z, r ++ [z]) end) as [sz sizes'].
+      destruct (read_chunk sz p s) as [[[d p1] s1]|e] eqn:R; [|discriminate].
+      apply (IH _ _ _ _ _ _ _ _ _) in H; [exact H| |exact E'].
+      destruct (read_chunk_sound _ _ _ _ _ _ _ HS E R) as [[E1 S1]|[E1 A1]]; [left|right]; split; assumption.
+  Qed.
+
+  Lemma St_initial mx s : s_ok s -> L s = body ++ D ++ rest -> St [] (new_part bnd None false mx) s.
+  Proof.
+    intros K HL. unfold St, new_part. cbn. repeat split; try assumption; try congruence.
+    unfold V. rewrite HL. reflexivity.
+  Qed.
 End Sound.
+
+(* any part without Content-Length / base64, any stream holding  content ++ CRLF--boundary ++ anything *)
+Theorem window_reader_sound bnd body rest mx s fuel data p' s' :
+  (forall i, (i < 2 + length body)%nat ->
+     starts_with (delim_prefix ++ bnd) (skipn i (delim_prefix ++ body ++ (delim_prefix ++ bnd) ++ rest)) = false) ->
+  s_ok s -> L s = body ++ (delim_prefix ++ bnd) ++ rest ->
+  part_read fuel (new_part bnd None false mx) s = Ok (data, p', s') -> data = body.
+Proof.
+  intros HF K HL H. eapply (read_loop_sound bnd body rest HF); [|exact H].
+  left. split; [reflexivity|]. apply St_initial; assumption.
+Qed.
+
+Theorem window_reader_chunks_sound bnd body rest mx s fuel sizes count bounded data p' s' :
+  (forall i, (i < 2 + length body)%nat ->
+     starts_with (delim_prefix ++ bnd) (skipn i (delim_prefix ++ body ++ (delim_prefix ++ bnd) ++ rest)) = false) ->
+  s_ok s -> L s = body ++ (delim_prefix ++ bnd) ++ rest ->
+  chunks_loop fuel sizes count bounded [] (new_part bnd None false mx) s = Ok (data, p', s') ->
+  p_at_eof p' = true -> data = body.
+Proof.
+  intros HF K HL H E. eapply (chunks_loop_sound bnd body rest HF); [|exact H|exact E].
+  left. split; [reflexivity|]. apply St_initial; assumption.
+Qed.
+
+Lemma s_init_ok segs eager limit : s_ok (s_init segs eager limit).
+Proof.
+  unfold s_ok, s_init. cbn. intro H. apply andb_true_iff in H as [_ H]. apply is_nil_true in H. exact H.
+Qed.
+
+Lemma s_init_L segs eager limit : L (s_init segs eager limit) = concat (map snd segs).
+Proof. reflexivity. Qed.
+
+(* the same for a part that starts on a fresh stream fed with ANY segmentation of the bytes *)
+Corollary window_reader_sound_segs bnd body rest mx segs eager limit fuel data p' s' :
+  (forall i, (i < 2 + length body)%nat ->
+     starts_with (delim_prefix ++ bnd) (skipn i (delim_prefix ++ body ++ (delim_prefix ++ bnd) ++ rest)) = false) ->
+  concat (map snd segs) = body ++ (delim_prefix ++ bnd) ++ rest ->
+  part_read fuel (new_part bnd None false mx) (s_init segs eager limit) = Ok (data, p', s') -> data = body.
+Proof.
+  intros HF HC H. eapply window_reader_sound; [exact HF|apply s_init_ok|rewrite s_init_L; exact HC|exact H].
+Qed.
+
+Corollary window_reader_chunks_sound_segs bnd body rest mx segs eager limit fuel sizes count bounded data p' s' :
+  (forall i, (i < 2 + length body)%nat ->
+     starts_with (delim_prefix ++ bnd) (skipn i (delim_prefix ++ body ++ (delim_prefix ++ bnd) ++ rest)) = false) ->
+  concat (map snd segs) = body ++ (delim_prefix ++ bnd) ++ rest ->
+  chunks_loop fuel sizes count bounded [] (new_part bnd None false mx) (s_init segs eager limit) = Ok (data, p', s') ->
+  p_at_eof p' = true -> data = body.
+Proof.
+  intros HF HC H E. eapply window_reader_chunks_sound; [exact HF|apply s_init_ok|rewrite s_init_L; exact HC|exact H|exact E].
+Qed.
